@@ -706,8 +706,9 @@ pub fn frag_map(doc: &MOpDoc) -> BTreeMap<String, MFragment> {
         .collect()
 }
 
-const OP_NAMES: &[&str] = &["GetThings", "list", "Q1", "doIt", "watch", "userQuery", "A"];
-const FRAG_NAMES: &[&str] = &["F1", "UserParts", "frag", "NodeBits", "B"];
+// "User" is in both pools: operations and fragments have separate name spaces
+const OP_NAMES: &[&str] = &["GetThings", "list", "Q1", "doIt", "watch", "userQuery", "A", "User"];
+const FRAG_NAMES: &[&str] = &["F1", "UserParts", "frag", "NodeBits", "B", "User"];
 
 /// Generate a valid document. Returns the doc and whether var-conditions were stripped.
 pub fn gen_doc(ch: &mut Choices, s: &Schema, o: &DocGenOpts) -> (GenDoc, bool) {
